@@ -300,7 +300,8 @@ class Driver:
             return
         except BaseException as exc:  # noqa: BLE001
             task.done = True
-            task.exc = exc
+            # drop the traceback: its frames would pin locals of library generators (retention monitors)
+            task.exc = exc.with_traceback(None)
             task.token = None
             return
         finally:
